@@ -13,6 +13,7 @@ import (
 	"os"
 	"strings"
 	"sync"
+	"sync/atomic"
 	"time"
 
 	"github.com/brutella/hc/accessory"
@@ -381,6 +382,10 @@ func (w *rbWorld) rbJSONRequest(sc rbScenario, rng *rand.Rand, v int) (method, p
 func (w *rbWorld) runScenario(b Beh, sc rbScenario, seed int64, variants int, tr *Tracer) error {
 	var lines []J
 	for v := 0; v < variants; v++ {
+		if atomic.LoadInt64(&ref.Timeouts) > 60 {
+			// the server has stopped answering (dozens of reads timed out): what was recorded decides, the rest is skipped
+			break
+		}
 		rng := rngFor(seed, 16000000+b.ID*100+v)
 		var c *ref.Conn
 		var err error
